@@ -10,14 +10,41 @@ BASELINE_OFF = ("for m in $(cat /w/out/gomods.txt); do MF=$(cd /repo/$m && . /w/
 # id -> (level, technique, text, note, design_ref, has_thorough)
 CHECKS = {
  "C01": ("exploration", "runtime monitoring: prefix/exactly-once oracle over recorded Send/Recv histories of the real gbn code in virtual time (testing/synctest) under PRNG fault scripts",
-         "Thousands of random drop/dup/delay scenarios per run for every window size, each wrapping the sequence space >=3 times; the oracle compares every delivered message byte-for-byte with the accepted Send sequence. Sampling of schedules and fault scripts, not enumeration.",
+         "Thousands of random drop/dup/delay scenarios per run for every window size, each wrapping the sequence space >=3 times, with slow consumers; the oracle compares every delivered message byte-for-byte with the accepted Send sequence and re-checks returned slices later. Sampling of schedules and fault scripts, not enumeration.",
          "FIFO link model; faults after a clean handshake; go1.26.8 synctest virtual clock; harness message generator", "3/C01", True),
+ "C02": ("exploration", "runtime monitoring: prefix oracle over what a real noise Machine returns when an adversary edits the captured ciphertext stream (exhaustive single-bit flips per stream, PRNG edit scripts, targeted replay/reflect/confusion cases)",
+         "Every returned plaintext is compared with what the authentic peer wrote in that direction; the reader keeps reading after errors so resynchronisation, replay across key rotation, reflection and header/body confusion all become observable.",
+         "only what ReadMessage returns is judged, not computational secrecy", "3/C02", True),
+ "C06": ("exploration", "runtime monitoring: bounded-progress, closure and quiescence oracles over real gbn scenarios in virtual time (fault prefix then reliable link; tail-loss and slow-resend families)",
+         "Liveness is restated as bounded progress on the virtual clock: at a 2 h horizon after faults cease every accepted message is delivered or both ends failed visibly; a silent stall needs 20 resend timeouts without a delivery; after full acknowledgement no DATA packet may be retransmitted.",
+         "unbounded eventually is out of reach: bounded restatement; schedules sampled", "3/C06", True),
+ "C07": ("exploration", "runtime monitoring: hostile byte strings fed to the real decoders (exhaustive up to 3/4 bytes) and injected as packets into live GBN handshakes / data-phase states and noise handshakes; panic oracle via journalled worker death, window-bookkeeping invariant via hook",
+         "All 256 SYN window values on both handshake paths, all 256 ACK/NACK/DATA sequence values against every sender state for N<=3 (sampled for 20 and 254), mutated noise acts and record streams; any panic or out-of-range bookkeeping is a violation.",
+         "websocket envelope exercised through its decoding steps (hook), not through a TLS socket", "3/C07", True),
+ "C09": ("exploration", "runtime monitoring: wire-level window monitor (fresh packets vs. delivered ACK/NACKs) plus white-box queue samples on every transmission, virtual-time blocking probes, exhaustive (base,top,seq) sweep of the real queue arithmetic against an independent oracle",
+         "The monitor can only under-estimate what is outstanding, so it never raises a false alarm; blocking semantics are exact in virtual time; small sequence spaces are enumerated completely.",
+         "FIFO link; monitor applies acknowledgements at delivery", "3/C09", True),
+ "C10": ("fault_enumeration", "runtime monitoring over an enumerated fault space: every deliver/drop/dup/delay vector over the first k handshake packets per direction x start orders x stale-packet prefixes, run against the real handshake code in virtual time with mailbox-like re-dial drivers",
+         "The decision vectors, start orders and stale prefixes are enumerated completely (k=2 quick, k=3 thorough); for each the negotiated windows, the SYNs actually delivered and the eventual request/response exchange are checked.",
+         "stale SYNs really delivered are not held against the server; schedules within a case are sampled", "3/C10", True),
  "C12": ("exploration", "runtime monitoring: Close injected at recorded event instants of real gbn scenarios in virtual time; bounded-return, FIN, wake-up oracles and a goroutine census of the bubble",
-         "For every drawn scenario Close is injected at the instants of its own wire events (and at random ones), by either side, both, or twice concurrently, over a working or dead transport; handshake-phase cancellation and a real-time slice for blocking transports. The census enumerates every goroutine started inside the bubble.",
+         "For every drawn scenario Close is injected at the instants of its own wire events (and at random ones), by either side, both, or twice concurrently, over a working or dead transport, with slow and stalled consumers; handshake-phase cancellation and a real-time slice for blocking transports. The census enumerates every goroutine started inside the bubble.",
          "bounds are exact in virtual time; bare time.Ticker objects without goroutine are not enumerable; schedules sampled", "3/C12", True),
+ "C13": ("exploration", "runtime monitoring: silence injected at swept instants into real gbn connections in virtual time, detection-time oracle; hours of virtual idleness for the healthy-peer clause",
+         "Dead-peer detection is timed exactly on the virtual clock for every backlog class (0..N+5) and ping/pong setting; healthy idle connections are watched for up to 24 virtual hours with round-trip times up to the pong timeout.",
+         "detection bound uses the connection's own boosted resend timeout", "3/C13", True),
+ "C14": ("exploration", "runtime monitoring: message-boundary oracle over the real gbn code in virtual time; exhaustive small domain of lengths x chunk sizes, random large payloads with faults, deadlines placed between chunks with retries",
+         "All lengths 0..25 x chunk sizes 0..8 x all length triples are transferred and compared byte-for-byte; deadline cases place the timer between two chunks of one message.",
+         "one sender/receiver goroutine per direction", "3/C14", True),
  "C18": ("exploration", "sanitizer: Go race detector (non-halting, reports collected and deduplicated) over virtual-time scenarios with concurrent API callers and coincident timers; panic oracle via worker death; porcupine linearizability check of Send/Recv histories; two-census deadlock rule on direct stress",
          "The race detector observes the real gbn code while several goroutines call Send/Recv/Close/timeout setters and ping, pong and resend timers share instants with packet arrivals; any report with a gbn frame, any worker death or any non-linearizable history is a violation.",
          "race detector sees only executed accesses; porcupine Unknown = inconclusive", "3/C18", True),
+ "C19": ("exploration", "runtime monitoring: round-trip oracle over the real codecs, exhaustive on all one-byte fields and on all byte strings up to 3 (quick) / 4 (thorough) bytes",
+         "Every field value x flag x payload-length class is serialised and deserialised (fresh and reused targets); every short byte string that deserialises is re-serialised and decoded again.",
+         "semantic equality (empty payload == nil payload)", "3/C19", True),
+ "C20": ("exploration", "runtime monitoring: shadow-state monitor derived from the statement, compared with the real TimeoutManager after every event of PRNG histories in virtual time",
+         "Histories of Sent/Received events with arbitrary virtual gaps; the monitor checks the floor, where the value may change, the exact recomputed value and the one-step-per-interval boost rule.",
+         "duration comparison with 1e-5 relative tolerance", "3/C20", True),
 }
 
 PLANNED = {}
